@@ -31,12 +31,15 @@ pub struct TxwParams {
     /// all clients announce the same application_name (no parameter sync between hand-overs:
     /// nothing the pooler sends on its own stands between two clients' statements)
     pub same_app: bool,
+    /// prewarmer plugin on: every new server connection first runs a pooler-issued query whose
+    /// reply is this many rows of 400 bytes (0 = plugin off)
+    pub prewarm_rows: u64,
 }
 
 impl TxwParams {
     pub fn describe(&self) -> String {
         format!(
-            "mode={} pool_size={} clients={} txns={} workers={} abort%={} jitter_us={} replicas={} hc_stall={} cache={} same_app={}",
+            "mode={} pool_size={} clients={} txns={} workers={} abort%={} jitter_us={} replicas={} hc_stall={} cache={} same_app={} prewarm_rows={}",
             self.mode,
             self.pool_size,
             self.clients,
@@ -47,7 +50,8 @@ impl TxwParams {
             self.replicas,
             self.hc_stall,
             self.cache,
-            self.same_app
+            self.same_app,
+            self.prewarm_rows
         )
     }
 }
@@ -69,6 +73,13 @@ pub fn build(p: &TxwParams) -> (Cell, Cfg) {
     cfg.gset("connect_timeout", &p.connect_timeout_ms.to_string());
     if p.cache > 0 {
         cfg.pools[0].set("prepared_statements_cache_size", &p.cache.to_string());
+    }
+    if p.prewarm_rows > 0 {
+        cfg.pools[0].set("query_parser_enabled", "true");
+        cfg.pools[0].raw_tables = format!(
+            "\n[pools.{{POOL}}.plugins]\n\n[pools.{{POOL}}.plugins.prewarmer]\nenabled = true\nqueries = [\"SELECT * FROM warm /*v c=prewarmer q=prewarm.q rows={} w=400 */\"]\n",
+            p.prewarm_rows
+        );
     }
     if p.hc_stall {
         cfg.gset("healthcheck_delay", "0");
